@@ -77,7 +77,7 @@ class SolRec : public mp::SOLHandler {
     if (step < cfg.script.size()) st = cfg.script[step];
     ++step;
     v.mode = st.mode;
-    long budget = st.mode == "all" ? (long)v.offered : st.mode == "none" ? 0 : std::min((long)st.k, (long)v.offered);
+    long budget = st.mode == "all" ? (long)v.offered : st.mode == "none" || st.mode == "counted" ? 0 : std::min((long)st.k, (long)v.offered);
     long cap = 200000;   // a hostile count cannot make the consumer loop forever: reads stop at end of file anyway
     while (rd.Size() > 0 && budget > 0 && cap-- > 0) {
       int before = rd.Size();
@@ -86,6 +86,13 @@ class SolRec : public mp::SOLHandler {
       v.st.push_back((int)rd.ReadResult());
       if (rd.Size() >= before) { fail("PROTOCOL", "VecReader.size-not-decreasing", "Size() did not decrease after ReadNext"); break; }
       --budget;
+    }
+    if (st.mode == "counted") {      // exactly the announced number of reads, whatever happens (the C API's default handlers do this)
+      for (long k = 0; k < (long)v.offered && k < 200000; ++k) {
+        auto val = rd.ReadNext();
+        put(v, val);
+        v.st.push_back((int)rd.ReadResult());
+      }
     }
     if (st.mode == "seterr" && rd.Size() > 0) rd.SetError(NLW2_SOLRead_Bad_Suffix, "consumer refuses the rest");
     v.final_status = (int)rd.ReadResult();
